@@ -35,3 +35,13 @@ package objects
 //@   loop 1 invariant cap(d.buf) >= 4 && len(d.buf) >= 4 && 0 <= i && i <= count && (d.buf == old(d.buf) || fresh(d.buf))
 //@   loop 1 invariant fresh(sl) || (reg(sl) == reg(old(d.strs)) && off(sl) == off(old(d.strs)) && cap(sl) == cap(old(d.strs)))
 //@   loop 1 decreases count - i
+
+//@ func (*UintListDecoder).readUint32
+//@   props C17 C18
+//@   requires len(d.buf) == 4 && r != nil && 0 <= d.pos && d.pos <= 1099511627776
+//@   modifies d.pos, d.buf[:], stream(r)
+//@   ensures [C18] err == nil ==> result0 == sbe32(r, old(pos(r))) && pos(r) == old(pos(r)) + 4 && d.pos == old(d.pos) + 4
+//@   ensures [C18] streamClean(r) && old(avail(r)) >= 4 ==> err == nil
+//@   ensures err != nil ==> d.pos == old(d.pos)
+//@   ensures d.buf == old(d.buf)
+//@   replay NewUintListDecoder(false).readUint32($r)
